@@ -5,7 +5,7 @@ from common import Some, Nat, Raw, opt, coq
 
 LEVEL = "proof"
 COQ_IMPORTS = ["Tie.C19"]
-RULE = ("vector pairs: skew, non-unit (1e-6..1e6), nearly parallel (angle 1e-3..1e-12), parallel, zero, with and without origin, all six "
+RULE = ("vector pairs: skew, non-unit (1e-13..1e12), nearly parallel (angle 1e-3..1e-12, also with a very long second vector), parallel, zero, with and without origin, all six "
         "constructors; point sets of 4..40 points: generic, planar, collinear, coincident, off-origin (to 1e3), with and without "
         "positive weights (uniform, scaled, random); point triples and point+normal planes with query points. distinct = distinct (tag, input)")
 TRUSTED_BASE = [
@@ -47,7 +47,7 @@ def unit(v):
 def gen_frame(rng):
     s = rng.choice([1e-6, 1e-3, 1.0, 1.0, 50.0, 1e6])
     a = rv(rng, s)
-    cls = rng.choice(["skew", "skew", "skew", "near", "parallel", "zero_a", "zero_b", "tiny"])
+    cls = rng.choice(["skew", "skew", "skew", "near", "parallel", "zero_a", "zero_b", "tiny", "short_b", "long_near"])
     if cls == "skew":
         b = rv(rng, rng.choice([1e-3, 1.0, 1e3]))
     elif cls == "near":
@@ -57,6 +57,12 @@ def gen_frame(rng):
     elif cls == "parallel":
         f = rng.choice([1.0, -2.0, 0.5])
         b = [x * f for x in a]
+    elif cls == "short_b":      # a well-conditioned but very short second argument: lengths must not matter
+        b = rv(rng, rng.choice([1e-9, 1e-11, 1e-13]))
+    elif cls == "long_near":    # a very long second argument within 1e-10 rad of the first: must still be rejected
+        p = rv(rng)
+        big = rng.choice([1e8, 1e12])
+        b = [(x / max(norm(a), 1e-300) + rng.choice([1e-11, 1e-12]) * y) * big for x, y in zip(a, p)]
     elif cls == "zero_a":
         a, b = [0.0, 0.0, 0.0], rv(rng)
     elif cls == "zero_b":
